@@ -954,6 +954,30 @@ def run(ctx):
                     domains={"matrices": "all %d matrices with entries in {0,+-1,+-i}, det != 0" % len(Ms),
                              "disks": len(specs), "routes": sorted({s["route"] for s in specs}),
                              "modes": ["one Transformation per matrix", "one composite Transformation per 96 matrices"]})
+    if on("moebius") and not q:
+        # thorough: products of two alphabet matrices (Gaussian-integer entries of modulus <= 2,
+        # poles at new places), applied as composite Transformations
+        Ms = matrices()
+        prods = []
+        seen = set()
+        for m1 in Ms:
+            for m2 in Ms:
+                A, B = np.array(Mz(m1)), np.array(Mz(m2))
+                P = A @ B
+                key = tuple((int(round(x.real)), int(round(x.imag))) for x in P.reshape(-1))
+                if key not in seen:
+                    seen.add(key)
+                    prods.append([[J(P[0, 0]), J(P[0, 1])], [J(P[1, 0]), J(P[1, 1])]])
+        specs2 = [s for k, s in enumerate(mobius_disks(seed, False)) if k % 3 == seed % 3 or "tag" in s]
+        mc2 = []
+        for s in specs2:
+            for ch in range(0, len(prods), 96):
+                mc2.append({"disk": s, "Ms": prods[ch:ch + 96], "mode": "stack"})
+            for ch in range(0, len(prods), 960):
+                mc2.append({"disk": s, "Ms": prods[ch:ch + 24], "mode": "single"})
+        ctx.product("moebius-products", "checks.c20:case_mobius", mc2, chunk=4,
+                    domains={"matrices": "%d distinct products M1 M2 of two alphabet matrices" % len(prods),
+                             "disks": len(specs2)})
     if on("pairs"):
         n = len(fam)
         pcs = []
@@ -965,6 +989,17 @@ def run(ctx):
                     for rb in ROUTES:
                         pcs.append({"A": {"route": ra, "c": J(fam[i][0]), "r": fam[i][1]},
                                     "B": {"route": rb, "c": J(fam[j][0]), "r": fam[j][1]}})
+        if not q:
+            # thorough: the family under two more similarities (other directions of the centre line)
+            for extra in (seed + 5, seed + 11):
+                f2 = family(extra)
+                for i in range(n):
+                    for j in range(n):
+                        if i != j:
+                            for ra in ROUTES:
+                                for rb in ROUTES:
+                                    pcs.append({"A": {"route": ra, "c": J(f2[i][0]), "r": f2[i][1]},
+                                                "B": {"route": rb, "c": J(f2[j][0]), "r": f2[j][1]}})
         ctx.product("pairs-single", "checks.c20:case_pair", pcs, chunk=32,
                     domains={"family": "12 disks, general position margin %.3f" % mg, "ordered pairs": n * (n - 1),
                              "routes": ROUTES, "modes": ["elementwise", "pairwise"], "methods": ["contains", "intersects"]})
